@@ -1,7 +1,9 @@
 /-
 C06 — model of `tbox::network::BufferedFd` (modules/network/buffered_fd.{h,cpp}) and of the
-`TcpConnection` wrapper (modules/network/tcp_connection.cpp), with patches/C06-01 applied
-(`enable()` arms the write event when bytes are queued; `enableOld` is the code as found).
+`TcpConnection` wrapper (modules/network/tcp_connection.cpp), with patches/C06-01 (`enable()` arms
+the write event when bytes are queued), C06-02 (bytes still buffered are presented before read-zero /
+a read error is reported) and C06-03 (read-zero is reported once, the read event is then off).
+`enableOld`, `onReadOld`, `runOld` are the code as found before these patches.
 
 * `send_buff_` / `recv_buff_` are the FIFO byte queues of C07 (`List Byte`, oldest first):
   `append` = `++`, `hasRead n` = `drop n`, `hasReadAll` = `[]` (C07_refines_fifo).
@@ -74,6 +76,7 @@ structure S where
   sendQ : List Byte := []
   recvQ : List Byte := []
   thr : Nat := 0                    -- receive_threshold_
+  eofSeen : Bool := false           -- is_read_eof_: read-zero has been reported
   rcb : Option (Nat × List Act) := none
   scb : Option (List Act) := none   -- send complete
   zcb : Option (List Act) := none   -- read zero
@@ -148,12 +151,12 @@ def initFd (s : S) (nullFd : Bool) (ev : Nat) : S × Bool :=
   else if s.st ≠ .empty then (s, false)
   else ({ s with st := .inited, hasRd := ev % 2 = 1, hasWr := ev / 2 % 2 = 1 }, true)
 
-/-- `enable()` with patches/C06-01: queued bytes arm the write event -/
+/-- `enable()` with patches/C06-01 (queued bytes arm the write event) and C06-03 (no read event after EOF) -/
 def enable (s : S) : S × Bool :=
   if s.st = .running then (s, true)
   else if s.st ≠ .inited then (s, false)
   else
-    ({ s with st := .running, readOn := s.hasRd,
+    ({ s with st := .running, readOn := s.hasRd && !s.eofSeen,
               writeArmed := if s.hasWr ∧ s.sendQ ≠ [] then true else s.writeArmed }, true)
 
 /-- `enable()` as found: the write event is left alone -/
@@ -221,29 +224,55 @@ def socketClosed (s : S) (viaErr : Bool) : S :=
   let s1 := { (disable s).1 with expired := true }
   fire s1 s1.dcb (.disconnected viaErr u)
 
+/-- the `deliver` step of `onReadCallback`: the whole receive buffer goes to the receive callback
+(consumes `k`, then its script) or, when none is set, is dropped with a warning -/
+def presentAny (s : S) : S :=
+  match s.rcb with
+  | some (k, as) =>
+      let p := s.recvQ
+      runActs { s with hist := s.hist ++ [.recv p k], recvQ := p.drop k, taken := s.taken ++ p.take k,
+                       pres := s.got.length } as
+  | none =>
+      { s with hist := s.hist ++ [.discard s.recvQ], taken := s.taken ++ s.recvQ, recvQ := [],
+               pres := s.got.length }
+
 /-- the tail of `onReadCallback` after data was appended to `recv_buff_` -/
 def present (s : S) : S :=
-  if s.thr ≤ s.recvQ.length then
-    match s.rcb with
-    | some (k, as) =>
-        let p := s.recvQ
-        runActs { s with hist := s.hist ++ [.recv p k], recvQ := p.drop k, taken := s.taken ++ p.take k,
-                         pres := s.got.length } as
-    | none =>
-        { s with hist := s.hist ++ [.discard s.recvQ], taken := s.taken ++ s.recvQ, recvQ := [],
-                 pres := s.got.length }
-  else s
+  if s.thr ≤ s.recvQ.length then presentAny s else s
+
+/-- report the end of the stream: TcpConnection's `onSocketClosed`, or the user's read-zero /
+read-error callback -/
+def closeTail (viaErr : Bool) (s : S) : S :=
+  if s.conn then socketClosed s viaErr
+  else if viaErr then fire s s.recb (.readError 104)
+  else fire s s.zcb (.readZero (unpresented s))
+
+/-- patches/C06-02: before the end of the stream is reported, what is still buffered is
+delivered whatever the threshold; if that callback disabled the object nothing more is reported -/
+def flushThen (s : S) (k : S → S) : S :=
+  if s.recvQ = [] then k s
+  else
+    let s2 := presentAny s
+    if s2.st ≠ .running then s2 else k s2
 
 /-- `onReadCallback` -/
 def onRead (s : S) : S :=
   match firstRead s.pending s.eof s.rq with
   | (.again, p, q) => { s with pending := p, rq := q }
   | (.zero, p, q) =>
-      let s := { s with pending := p, rq := q }
-      if s.conn then socketClosed s false else fire s s.zcb (.readZero (unpresented s))
+      -- patches/C06-03: remember EOF, stop watching the read event
+      flushThen { s with pending := p, rq := q, readOn := false, eofSeen := true } (closeTail false)
   | (.error, p, q) =>
-      let s := { s with pending := p, rq := q }
-      if s.conn then socketClosed s true else fire s s.recb (.readError 104)
+      flushThen { s with pending := p, rq := q } (closeTail true)
+  | (.data d, p, q) =>
+      present { s with pending := p, rq := q, recvQ := s.recvQ ++ d, got := s.got ++ d }
+
+/-- `onReadCallback` as found: below-threshold bytes stay unpresented, read-zero repeats -/
+def onReadOld (s : S) : S :=
+  match firstRead s.pending s.eof s.rq with
+  | (.again, p, q) => { s with pending := p, rq := q }
+  | (.zero, p, q) => closeTail false { s with pending := p, rq := q }
+  | (.error, p, q) => closeTail true { s with pending := p, rq := q }
   | (.data d, p, q) =>
       present { s with pending := p, rq := q, recvQ := s.recvQ ++ d, got := s.got ++ d }
 
@@ -281,6 +310,7 @@ inductive Op where
   | wmax (k : Nat)                        -- natural writes accept at most k bytes (0 = everything)
   | rd                                    -- a loop pass that reports the descriptor readable
   | wr                                    -- a loop pass that reports the descriptor writable
+  | rw                                    -- a loop pass that reports both (one epoll dispatch: read event first)
   | nop                                   -- shrink buffers / change the natural read chunk: no observable effect
 deriving Repr
 
@@ -341,6 +371,12 @@ def step (s : S) : Op → S × Bool
   | .wmax k => ({ s with wmax := k }, true)
   | .rd => (if s.readOn ∧ (s.pending ≠ [] ∨ s.eof) then onRead s else s, true)
   | .wr => (if s.writeArmed then onWrite s else s, true)
+  | .rw =>
+      -- EpollFdEvent::OnEventCallback: the events subscribed when the dispatch starts are called in
+      -- subscription order (read was enabled before write), each only if it is still subscribed
+      let w := s.writeArmed
+      let s1 := if s.readOn ∧ (s.pending ≠ [] ∨ s.eof) then onRead s else s
+      (if w ∧ s1.writeArmed then onWrite s1 else s1, true)
   | .nop => (s, true)
 
 /-- an operation the object does not offer in this state leaves everything unchanged -/
@@ -350,10 +386,15 @@ def run (s : S) (ops : List Op) : S := ops.foldl stepOk s
 
 def init : S := {}
 
-/-! ### the code as found (before patches/C06-01): only `enable` differs -/
+/-! ### the code as found (before patches/C06-01..03): `enable` and `onReadCallback` differ -/
 
 def stepOld (s : S) : Op → S × Bool
   | .enable => if s.conn then (s, false) else enableOld s
+  | .rd => (if s.readOn ∧ (s.pending ≠ [] ∨ s.eof) then onReadOld s else s, true)
+  | .rw =>
+      let w := s.writeArmed
+      let s1 := if s.readOn ∧ (s.pending ≠ [] ∨ s.eof) then onReadOld s else s
+      (if w ∧ s1.writeArmed then onWrite s1 else s1, true)
   | op => step s op
 
 def runOld (s : S) (ops : List Op) : S :=
